@@ -387,6 +387,39 @@ def run(check, mirror, tier):
     RXW2 = ['replace("a.b", ".", "-", "q")', 'replace("a.b", ".", "-")', 'replace("a.b", "b", "-", "i")', 'replace("x-y", "-", "+")', 'split("a.b.c", "[.]")', 'split("a.b.c", "b")']
     regex_job("replace", 4, False, RXW2)
     regex_job("split", 2, True, RXW2)
+
+    # replace with a flags argument: the flag scanning and pattern escaping loops run over character sequences
+    import charseq as _cs
+    from checks.C18 import JSON_MODELS as _STRING_MODELS
+
+    def replace_flags_job():
+        def setup(ex, st):
+            args = []
+            for k in range(4):
+                if k in (1, 3):
+                    s_, n, cps = _cs.fresh_string(ex, st, "pattern" if k == 1 else "flags", 2)
+                else:
+                    s_ = StrV(None, id=z3.Int(ex.fresh_name("s%d" % k)))
+                args.append(Ref(ex.new_cell(st, En("Value", z3.IntVal(U.idx("String")), {"String": (s_,)}), "arg")))
+            return "replace", args, {"function": "replace with flags"}
+
+        def post(ex, o, v):
+            ev = o.st.log
+            return [("the built-in does not write process-wide mutable state", z3.BoolVal(not [e for e in ev if e[0] == "shared_write"])),
+                    ("the built-in does not read process-wide mutable state", z3.BoolVal(not [e for e in ev if e[0] == "shared_read"])),
+                    ("reach:a pattern is compiled", z3.BoolVal(any(e[0] == "regex_new" for e in ev)))]
+        wl = ['replace("A.C", ".", "#", "i")', 'replace("A.C", ".", "#", "qi")', 'replace("a.b", ".", "-", "q")', 'replace("a.b", ".", "-", "")', 'replace("abc", "B", "x", "i")']
+
+        def replay(i, rb):
+            out = stress(rb, wl)
+            return out.startswith("MISMATCH") or out.startswith("PANIC"), "8 threads evaluating %s for 3 s: %s" % (wl, out[:200])
+        def m_is_empty(ex, st, callee, args, dest_ty):
+            q = _cs.seq_of(deref(ex, st, args[0]) if isinstance(args[0], Ref) else args[0])
+            yield st, mk_bool(z3.simplify(q.len == 0))
+        extra = [(R(r"^core::str::<impl str>::is_empty$|^(std::string::)?String::is_empty$"), m_is_empty)]
+        jobs.append(lambda c: decide(c, crate_e, "regex_bifs/replace_flags", setup, post, replay, rb, models=extra + RX_MODELS[:-len(fv.VALUE_MODELS)] + _STRING_MODELS + fv.VALUE_MODELS, unwind=12,
+                                     describe=lambda m, v: {"function": "replace with flags"}, need_reach=["reach:a pattern is compiled"], max_cex=1, budget_s=300))
+    replace_flags_job()
     run_parallel(check, jobs)
 
     # ---------------------------------------------------------------- E: no state inside a compiled decision table survives an evaluation
